@@ -169,3 +169,27 @@ Lemma dns64_rfc_alone_outlives_piece :
   /\ dns64_rfc_ttl None addrs now * second > remaining bare_nodata now
   /\ dns64_ttl None addrs consulted now = 3.
 Proof. vm_compute. repeat split; reflexivity. Qed.
+
+(* ------------------------------------------------------------------ *)
+(** * The denial rung inside a request tree *)
+
+(* A denial synthesised from the RFC 8198 index or a subtree cut is served
+   strictly before its deadline with a TTL inside what is left; the request tree
+   is bound by that deadline from then on (whatever else is folded), so every
+   entry admitted with the tree's bound as its lease -- the alias that adopted
+   the denial, and anything re-cached from that -- ends with the denial. *)
+Lemma denial_rung_inherits_l m d lease now t :
+  cut_serve d now = Some t ->
+  now < d /\ 0 <= t /\ t * second <= d - now
+  /\ ole (denial_rung_bound m d lease) d
+  /\ mle (denial_rung_bound m d lease) m
+  /\ (forall e, e_cut e = denial_rung_bound m d lease -> entry_end e <= d).
+Proof.
+  intros H. destruct (cut_serve_spec d now t H) as (H1 & H2 & H3).
+  assert (Ho : ole (denial_rung_bound m d lease) d).
+  { unfold denial_rung_bound. apply ole_bound_l. apply ole_bound_r. cbn. lia. }
+  repeat split; try assumption.
+  - unfold denial_rung_bound. eapply mle_trans; [apply mle_bound|apply mle_bound].
+  - intros e He. unfold entry_end. rewrite He.
+    destruct (denial_rung_bound m d lease) as [v|]; cbn in Ho; [lia|tauto].
+Qed.
